@@ -1,7 +1,7 @@
 /-
   Tombstone coherence (C05): every write entry point stores `tombstone = 1` exactly when it stores no body.
 -/
-import Rosmar.Proofs.Lemmas
+import Rosmar.Proofs.Invariant
 namespace Rosmar
 
 /-- The flag and the body agree. -/
@@ -146,222 +146,21 @@ end Rosmar
 
 namespace Rosmar
 
-/-! ### Lifting to the API calls, `step` and `run` -/
-
-/-- Well-formed calls: a WithMeta write says "deletion" exactly when it carries no body. -/
-def Op.WF : Op → Prop
-  | .wmeta _ _ _ _ _ _ body _ d => d = body.isNone
-  | _ => True
-
-section
-variable {P : Row → Prop}
-
-theorem opWithNewCas_row (s : State) (c k : String) (f : RowFn) (hf : f.Establishes P) (hs : StateAll P s) :
-    StateAll P (withNewCas s c (liftRow k f)).1 :=
-  withNewCas_stateAll (liftRow_preserves hf k) s c hs
-
-end
-
-theorem writeWithXattrs_coh (s : State) (c k : String) (val : ValArg) (edits : List XEdit) (ifCas exp : Option Nat) (o : XOpts)
-    (m : List (String × MacroKind)) (hs : StateAll RowCoh s) : StateAll RowCoh (writeWithXattrs s c k val edits ifCas exp o m).1 := by
-  unfold writeWithXattrs
-  split
-  · exact hs
-  · exact opWithNewCas_row s c k _ (wwxRow_coh k val edits ifCas exp o m) hs
-
-theorem opWriteWithXattrs_coh (s : State) (c k : String) (exp cas : Nat) (v : Option String) (sets : Sets) (dels : Option (List String))
-    (pe : Bool) (m : Macros) (hs : StateAll RowCoh s) : StateAll RowCoh (opWriteWithXattrs s c k exp cas v sets dels pe m).1 := by
-  unfold opWriteWithXattrs
-  split; · exact hs
-  split; · exact hs
-  split; · exact hs
-  split
-  · exact hs
-  · exact writeWithXattrs_coh _ _ _ _ _ _ _ _ _ hs
-
-theorem opWriteTombstoneWithXattrs_coh (s : State) (c k : String) (exp cas : Nat) (sets : Sets) (dels : Option (List String))
-    (db : Bool) (m : Macros) (hs : StateAll RowCoh s) : StateAll RowCoh (opWriteTombstoneWithXattrs s c k exp cas sets dels db m).1 := by
-  unfold opWriteTombstoneWithXattrs
-  split; · exact hs
-  split; · exact hs
-  split; · exact hs
-  split
-  · exact hs
-  · exact writeWithXattrs_coh _ _ _ _ _ _ _ _ _ hs
-
-theorem opWriteResurrectionWithXattrs_coh (s : State) (c k : String) (exp : Nat) (v : Option String) (sets : Sets)
-    (pe : Bool) (m : Macros) (hs : StateAll RowCoh s) : StateAll RowCoh (opWriteResurrectionWithXattrs s c k exp v sets pe m).1 := by
-  unfold opWriteResurrectionWithXattrs
-  split
-  · exact hs
-  · split
-    · exact hs
-    · exact writeWithXattrs_coh _ _ _ _ _ _ _ _ _ hs
-
-theorem opUpdate_coh (fuel : Nat) : ∀ (s : State) (c k : String) (exp : Nat) (steps : List UpdStep) (calls : Nat) (seen : List String),
-    StateAll RowCoh s → StateAll RowCoh (opUpdate fuel s c k exp steps calls seen).1 := by
-  induction fuel with
-  | zero => intro s c k exp steps calls seen hs; simpa [opUpdate] using hs
-  | succ n ih =>
-    intro s c k exp steps calls seen hs
-    have hw : ∀ (v : Option String) (e cas : Nat), StateAll RowCoh (opWriteCas s c k e cas v {}).1 :=
-      fun v e cas => opWithNewCas_row s c k _ (wcasRow_coh k e cas v {}) hs
-    unfold opUpdate
-    simp only
-    repeat' (first
-      | exact hs
-      | exact hw _ _ _
-      | (apply ih; first | exact hs | exact hw _ _ _)
-      | split)
-
-theorem opWuwx_coh (fuel : Nat) : ∀ (s : State) (c k : String) (names : List String) (steps : List WuStep) (sets : Sets)
-    (dels : Option (List String)) (m : Macros) (cbExp : Option Nat) (pe : Bool) (am : Macros) (calls : Nat) (seen : List String),
-    StateAll RowCoh s → StateAll RowCoh (opWuwx fuel s c k names steps sets dels m cbExp pe am calls seen).1 := by
-  induction fuel with
-  | zero => intro s c k names steps sets dels m cbExp pe am calls seen hs; simpa [opWuwx] using hs
-  | succ n ih =>
-    intro s c k names steps sets dels m cbExp pe am calls seen hs
-    unfold opWuwx
-    simp only
-    repeat' (first
-      | exact hs
-      | exact opWriteTombstoneWithXattrs_coh _ _ _ _ _ _ _ _ _ hs
-      | exact opWriteResurrectionWithXattrs_coh _ _ _ _ _ _ _ _ hs
-      | exact opWriteWithXattrs_coh _ _ _ _ _ _ _ _ _ _ hs
-      | (apply ih; first
-          | exact hs
-          | exact opWriteTombstoneWithXattrs_coh _ _ _ _ _ _ _ _ _ hs
-          | exact opWriteResurrectionWithXattrs_coh _ _ _ _ _ _ _ _ hs
-          | exact opWriteWithXattrs_coh _ _ _ _ _ _ _ _ _ _ hs)
-      | split)
-
-theorem opDelete_coh (s : State) (c k : String) (hs : StateAll RowCoh s) : StateAll RowCoh (opDelete s c k).1 :=
-  opWithNewCas_row s c k _ (removeRow_coh k none) hs
-
-theorem opFireExpiry_coh (s : State) (hs : StateAll RowCoh s) : StateAll RowCoh (opFireExpiry s) := by
-  unfold opFireExpiry
-  simp only
-  have h0 : StateAll RowCoh ({ s with expNext := 0 } : State) := StateAll.of_colls_eq rfl hs
-  have hkeys : ∀ (keys : List String) (c : String) (st : State), StateAll RowCoh st →
-      StateAll RowCoh (keys.foldl (fun st' k => (opDelete st' c k).1) st) := by
-    intro keys c
-    induction keys with
-    | nil => intro st h; exact h
-    | cons k tl ih => intro st h; exact ih _ (opDelete_coh st c k h)
-  have hcolls : ∀ (l : List (String × Coll)) (st : State), StateAll RowCoh st →
-      StateAll RowCoh (l.foldl (fun st p =>
-        match st.coll? p.1 with
-        | none => st
-        | some x => (dueKeys x.docs st.now).foldl (fun st' k => (opDelete st' p.1 k).1) st) st) := by
-    intro l
-    induction l with
-    | nil => intro st h; exact h
-    | cons p tl ih =>
-      intro st h
-      apply ih
-      show StateAll RowCoh (match st.coll? p.1 with
-        | none => st
-        | some x => (dueKeys x.docs st.now).foldl (fun st' k => (opDelete st' p.1 k).1) st)
-      split
-      · exact h
-      · exact hkeys _ _ _ h
-  have h1 := hcolls (({ s with expNext := 0 } : State).colls.foldr insertCollById []) _ h0
-  split
-  · exact StateAll.of_colls_eq rfl h1
-  · exact h1
-
-theorem opPurge_coh (s : State) (hs : StateAll RowCoh s) : StateAll RowCoh (opPurge s).1 := by
-  intro p hp
-  unfold opPurge at hp
-  simp only [List.mem_map] at hp
-  obtain ⟨q, hq, rfl⟩ := hp
-  exact (hs q hq).filter _
-
-theorem opWriteWithMeta_coh (s : State) (c k : String) (old new exp : Nat) (xs : Xattrs) (body : Option String) (j d : Bool)
-    (hwf : d = body.isNone) (hs : StateAll RowCoh s) : StateAll RowCoh (opWriteWithMeta s c k old new exp xs body j d).1 := by
-  unfold opWriteWithMeta
-  split
-  · exact hs
-  · rename_i x hx
-    split
-    · exact hs
-    · rename_i docs' nid ev out hfn
-      have hd' : DocsAll RowCoh docs' :=
-        liftRow_preserves (wmetaRow_coh k old new exp xs body j d hwf) k _ _ _ _ _ _ _ _ (hs.coll c x hx) hfn
-      have h2 : StateAll RowCoh (({ s with nextRowId := nid } : State).setColl c { x with docs := docs' }) :=
-        StateAll.setColl (StateAll.of_colls_eq rfl hs) c _ hd'
-      split
-      · exact StateAll.of_colls_eq rfl h2
-      · exact h2
-
-theorem opTouch_coh (s : State) (c k : String) (exp : Nat) (hs : StateAll RowCoh s) : StateAll RowCoh (opTouch s c k exp).1 := by
-  unfold opTouch
-  have h : StateAll RowCoh (withNewCas s c (touchFn k exp)).1 := opWithNewCas_row s c k _ (touchRow_coh exp) hs
-  simp only
-  split
-  · exact StateAll.of_colls_eq rfl h
-  · exact h
-
-/-- One step preserves tombstone coherence. -/
-theorem step_coh (s : State) (op : Op) (hwf : op.WF) (hs : StateAll RowCoh s) : StateAll RowCoh (step s op).1 := by
-  cases op with
-  | clock t => exact StateAll.of_colls_eq rfl hs
-  | now n => exact StateAll.of_colls_eq rfl hs
-  | add c k exp v json => exact opWithNewCas_row s c k _ (addRow_coh k exp v _) hs
-  | set c k exp pe v raw => exact opWithNewCas_row s c k _ (setRow_coh k exp pe v _) hs
-  | wcas c k exp cas v o => exact opWithNewCas_row s c k _ (wcasRow_coh k exp cas v o) hs
-  | remove c k cas => exact opWithNewCas_row s c k _ (removeRow_coh k _) hs
-  | delete c k => exact opDelete_coh s c k hs
-  | touch c k exp => exact opTouch_coh s c k exp hs
-  | incr c k amt d exp => exact opWithNewCas_row s c k _ (incrRow_coh k amt d exp) hs
-  | setx c k sets => exact writeWithXattrs_coh _ _ _ _ _ _ _ _ _ hs
-  | rmx c k names cas => exact writeWithXattrs_coh _ _ _ _ _ _ _ _ _ hs
-  | updx c k exp cas sets m =>
-    show StateAll RowCoh (opUpdateXattrs s c k exp cas sets m).1
-    unfold opUpdateXattrs
-    split
-    · exact hs
-    · exact writeWithXattrs_coh _ _ _ _ _ _ _ _ _ hs
-  | wwx c k exp cas v sets dels pe m => exact opWriteWithXattrs_coh _ _ _ _ _ _ _ _ _ _ hs
-  | wtx c k exp cas sets dels db m => exact opWriteTombstoneWithXattrs_coh _ _ _ _ _ _ _ _ _ hs
-  | wrx c k exp v sets pe m => exact opWriteResurrectionWithXattrs_coh _ _ _ _ _ _ _ _ hs
-  | uxdb c k xk exp cas xv m => exact writeWithXattrs_coh _ _ _ _ _ _ _ _ _ hs
-  | delx c k names => exact opWithNewCas_row s c k _ (delxRow_coh k names) hs
-  | dsp c k names => exact opWithNewCas_row s c k _ (dspRow_coh k names) hs
-  | wmeta c k old new exp xs body j d => exact opWriteWithMeta_coh s c k old new exp xs body j d hwf hs
-  | purge => exact opPurge_coh s hs
-  | update c k exp steps => exact opUpdate_coh _ _ _ _ _ _ _ _ hs
-  | wuwx c k names steps sets dels m cbExp pe => exact opWuwx_coh _ _ _ _ _ _ _ _ _ _ _ _ _ _ hs
-  | startFeed id c bf dump ko =>
-    show StateAll RowCoh (opStartFeed s id c bf dump ko).1
-    unfold opStartFeed
-    split
-    · exact hs
-    · exact StateAll.of_colls_eq rfl hs
-  | drain id =>
-    show StateAll RowCoh (opDrain s id).1
-    unfold opDrain
-    split
-    · exact hs
-    · exact StateAll.of_colls_eq rfl hs
-  | fire => exact opFireExpiry_coh s hs
-  | rb c k names => exact hs
-  | lastCas c => exact hs
-  | keys c => exact hs
-  | expState => exact hs
+/-- Tombstone coherence is a row invariant of every write entry point. -/
+theorem rowCoh_invariant : RowInvariant RowCoh where
+  add := addRow_coh
+  set := setRow_coh
+  incr := incrRow_coh
+  wcas := wcasRow_coh
+  remove := removeRow_coh
+  touch := touchRow_coh
+  wwx := wwxRow_coh
+  delx := delxRow_coh
+  dsp := dspRow_coh
+  wmeta := wmetaRow_coh
 
 /-- Every reachable state is coherent: induction over any operation list. -/
-theorem run_coh (ops : List Op) : ∀ (s : State), (∀ op ∈ ops, op.WF) → StateAll RowCoh s → StateAll RowCoh (run s ops).1 := by
-  induction ops with
-  | nil => intro s _ hs; exact hs
-  | cons op tl ih =>
-    intro s hwf hs
-    simp only [run]
-    exact ih _ (fun o ho => hwf o (List.mem_cons_of_mem _ ho)) (step_coh s op (hwf op (List.mem_cons_self)) hs)
-
-theorem initState_coh : StateAll RowCoh initState := by
-  intro p hp
-  simp [initState] at hp
-  rcases hp with rfl | rfl | rfl <;> exact DocsAll.nil _
+theorem run_coh (ops : List Op) (hwf : ∀ op ∈ ops, op.WF) : StateAll RowCoh (run initState ops).1 :=
+  run_inv rowCoh_invariant ops initState hwf (initState_inv RowCoh)
 
 end Rosmar
